@@ -276,6 +276,9 @@ def match_known(known: List[Dict[str, Any]], bucket: str) -> Optional[Dict[str, 
 def _run_shard(args: Tuple[str, str, int, int, int]) -> Dict[str, Any]:
     modname, tier, seed, shard, nshards = args
     import importlib
+    import warnings
+
+    warnings.simplefilter("ignore")
 
     mod = importlib.import_module(modname)
     scratch = make_scratch(f"{mod.PID}-{shard}")
@@ -297,6 +300,9 @@ def _run_shard(args: Tuple[str, str, int, int, int]) -> Dict[str, Any]:
 
 
 def main(mod: Any) -> None:
+    import warnings
+
+    warnings.simplefilter("ignore")
     ap = argparse.ArgumentParser()
     ap.add_argument("--tier", default=os.environ.get("VERIF_TIER", "quick"),
                     choices=["quick", "thorough"])
@@ -392,19 +398,20 @@ def main(mod: Any) -> None:
         print(line)
 
     replay_paths = []
+    # shrink all unlisted buckets in parallel (bounded budget each)
+    shrunk = {}  # type: Dict[str, Any]
+    if violations and (getattr(mod, "shrink", None) is not None or getattr(mod, "AUTO_SHRINK", True)):
+        budget = 25.0 if args.tier == "quick" else 120.0
+        sjobs = [(modname, f["case"], bucket, budget) for bucket, f in violations]
+        try:
+            mpctx = multiprocessing.get_context("spawn")
+            with mpctx.Pool(min(16, len(sjobs))) as pool:
+                for bucket, case in pool.map(_shrink_job, sjobs, chunksize=1):
+                    shrunk[bucket] = case
+        except Exception:  # noqa: keep the unshrunk cases
+            pass
     for bucket, f in violations:
-        case = f["case"]
-        shrink = getattr(mod, "shrink", None)
-        if shrink is None and getattr(mod, "AUTO_SHRINK", True):
-            shrink = _default_shrink(mod)
-        if shrink is not None:
-            try:
-                budget = 60.0 if args.tier == "quick" else 300.0
-                smaller = shrink(case, bucket, budget)
-                if smaller is not None:
-                    case = smaller
-            except Exception:  # noqa: keep the unshrunk case
-                pass
+        case = shrunk.get(bucket, f["case"])
         rp = VERIF / "replays" / pid / f"{jhash([bucket, case])}.json"
         rp.parent.mkdir(parents=True, exist_ok=True)
         rp.write_text(
@@ -464,6 +471,21 @@ def main(mod: Any) -> None:
             print(f"HARNESS-ERROR {pid}: {h}", file=sys.stderr)
         sys.exit(2)
     sys.exit(0)
+
+
+def _shrink_job(args: Tuple[str, Any, str, float]) -> Tuple[str, Any]:
+    modname, case, bucket, budget = args
+    import importlib
+    import warnings
+
+    warnings.simplefilter("ignore")
+    mod = importlib.import_module(modname)
+    shrink = getattr(mod, "shrink", None) or _default_shrink(mod)
+    try:
+        smaller = shrink(case, bucket, budget)
+        return bucket, (smaller if smaller is not None else case)
+    except Exception:  # noqa
+        return bucket, case
 
 
 def _default_shrink(mod: Any) -> Callable[[Any, str, float], Any]:
